@@ -1983,7 +1983,7 @@ where
                 N
             };
 
-            let (right, left) = self.slices_uninit_mut();
+            let (right, _) = self.slices_uninit_mut();
 
             let write_len = core::cmp::min(right.len(), other.len());
             #[cfg(feature = "unstable")]
@@ -1991,15 +1991,24 @@ where
             #[cfg(not(feature = "unstable"))]
             write_uninit_slice_cloned(&mut right[..write_len], &other[..write_len]);
 
-            let other = &other[write_len..];
-            debug_assert!(left.len() >= other.len());
-            let write_len = other.len();
-            #[cfg(feature = "unstable")]
-            left[..write_len].write_clone_of_slice(other);
-            #[cfg(not(feature = "unstable"))]
-            write_uninit_slice_cloned(&mut left[..write_len], other);
+            // The elements cloned so far are now part of the buffer: if cloning one of the
+            // remaining elements panics, they get dropped with the buffer instead of being leaked
+            self.size += write_len;
 
-            self.size = final_size;
+            let other = &other[write_len..];
+            if !other.is_empty() {
+                // The free space wraps around the end of the array; the rest goes at its start
+                let (left, _) = self.slices_uninit_mut();
+                debug_assert!(left.len() >= other.len());
+                let write_len = other.len();
+                #[cfg(feature = "unstable")]
+                left[..write_len].write_clone_of_slice(other);
+                #[cfg(not(feature = "unstable"))]
+                write_uninit_slice_cloned(&mut left[..write_len], other);
+                self.size += write_len;
+            }
+
+            debug_assert_eq!(self.size, final_size);
         } else {
             // `other` overwrites the whole buffer; get only the last `N` elements from `other` and
             // overwrite
